@@ -64,7 +64,7 @@ func judgeRefRules(c *vs.Case, e *Env, t *SyncTrace, cachedParent map[string]any
 		hadOurs, hasOurs := hasRefUID(r.Pre, uid), hasRefUID(r.Post, uid)
 		cached := FindIn(t.PreCache[res], r.Pre)
 		switch {
-		case !hadOurs && hasOurs: // adoption
+		case ControllerOf(r.Pre) != uid && ControllerOf(r.Post) == uid: // adoption (incl. promotion of a plain reference)
 			c.Class("adoption:%s", res)
 			if cfg.Kind != "composite" {
 				return vs.Violf("C04/decorator-adopted", "%s: a decorator adopted an object", r.String())
@@ -96,6 +96,7 @@ func judgeRefRules(c *vs.Case, e *Env, t *SyncTrace, cachedParent map[string]any
 				return vs.Violf("C04/adopted-controlled-object", "%s added our reference to an object controlled by %s", r.String(), ControllerOf(r.Pre))
 			}
 		case hadOurs && !hasOurs: // release
+			_ = hasOurs
 			c.Class("release:%s", res)
 			if IsDeleting(cachedParent) {
 				return vs.Violf("C04/deleting-parent-released", "%s: a parent observed with a deletionTimestamp released a child", r.String())
